@@ -1939,7 +1939,7 @@ func ruleDCHECKSKIP(w *World, r *Report) {
 				if mi, ok := v.(*ssa.MakeInterface); ok {
 					v = stripAllConv(mi.X)
 				}
-				if strings.HasSuffix(chainPath(w.up(v), 0), ".parityShards[*]") {
+				if strings.HasSuffix(chainPathUp(w, v, 0), ".parityShards[*]") {
 					loaded = v
 				}
 			}
@@ -2039,4 +2039,32 @@ func ruleWRITELOOP(w *World, r *Report) {
 		}
 	}
 	r.floor("WRITELOOP", "success returns of par2 Repair", n, 1)
+}
+
+// chainPathUp is chainPath that continues through a parameter of a single-call-site private
+// helper into the caller's argument: parityShards[*] inside check(coder, data, parityShards)
+// called with d.parityShards is <d>.parityShards[*].
+func chainPathUp(w *World, v ssa.Value, depth int) string {
+	if depth > 8 {
+		return "?"
+	}
+	v = stripAllConv(v)
+	switch x := v.(type) {
+	case *ssa.UnOp:
+		if x.Op == token.MUL {
+			return chainPathUp(w, x.X, depth+1)
+		}
+	case *ssa.FieldAddr:
+		return chainPathUp(w, x.X, depth+1) + "." + fieldName(x.X.Type(), x.Field)
+	case *ssa.Field:
+		return chainPathUp(w, x.X, depth+1) + "." + fieldName(x.X.Type(), x.Field)
+	case *ssa.IndexAddr:
+		return chainPathUp(w, x.X, depth+1) + "[*]"
+	case *ssa.Parameter:
+		if u := w.up(x); u != nil && u != ssa.Value(x) {
+			return chainPathUp(w, u, depth+1)
+		}
+		return "<" + x.Name() + ">"
+	}
+	return chainPath(v, depth)
 }
